@@ -836,6 +836,12 @@ pub fn c07(tier: Tier) -> Vec<Case> {
         ("lookahead-tail", choice(vec![seq(vec![bfield("l", "A"), lit("x"), not(lit("y"))]), field("n", "N")])),
         ("unnamed-rec", choice(vec![seq(vec![rref("A"), lit("x")]), field("n", "N")])),
         ("nullable-base", choice(vec![seq(vec![bfield("l", "A"), lit("x")]), opt(field("n", "N"))])),
+        // tails that can match nothing: a re-evaluation that ends where the previous one ended is not a growth step
+        ("closure-tail", choice(vec![seq(vec![bfield("l", "A"), star(seq(vec![lit("+"), field("r", "N")]))]), field("n", "N")])),
+        ("optional-tail", choice(vec![seq(vec![bfield("l", "A"), opt(seq(vec![lit("+"), field("r", "N")]))]), field("n", "N")])),
+        ("empty-alternative-tail", choice(vec![seq(vec![bfield("l", "A"), Expr::Group(Box::new(choice(vec![lit("x"), seq(vec![])])))]), field("n", "N")])),
+        ("lookahead-only-tail", choice(vec![seq(vec![bfield("l", "A"), not(lit("y"))]), field("n", "N")])),
+        ("no-tail", choice(vec![bfield("l", "A"), field("n", "N")])),
     ];
     for (name, body) in unusual {
         for root in [
